@@ -18,6 +18,7 @@ from .ddmin import minimise
 
 RUN_TIMEOUT = float(os.environ.get("VERIF_RUN_TIMEOUT", "60"))
 KNOWN_FILE = os.path.join(core.VERIF, "known_findings.json")
+OUT = os.environ.get("VERIF_OUT", core.VERIF)   # evidence/ and replays/ live here (redirected by the sensitivity self-test)
 
 
 def load_prop(prop):
@@ -156,7 +157,7 @@ class Batch:
 
 
 def replay_path(prop, seed, index):
-    d = os.path.join(core.VERIF, "replays")
+    d = os.path.join(OUT, "replays")
     os.makedirs(d, exist_ok=True)
     return os.path.join(d, f"{prop}-{seed}-{index}.json")
 
@@ -245,7 +246,7 @@ def verify_replay_fresh(prop, path):
 
 def write_evidence(prop, mod, tier, seed, batch, violations_unlisted, known_hits, extra=None):
     t = batch.total
-    d = os.path.join(core.VERIF, "evidence")
+    d = os.path.join(OUT, "evidence")
     os.makedirs(d, exist_ok=True)
     wall = max(batch.wall, 1e-9)
     cov = {
